@@ -181,6 +181,43 @@ fn hosts() -> Vec<Host> {
             // an s that starts with `c` would make "the run of c after s" ambiguous
             applies: |s| !s.contains('c') && !s.contains('!'),
         },
+        // an atomic group inside a look-behind (the look-behind distance comes from the analysis)
+        Host {
+            name: "(?<=(?>E))E",
+            build: |e| format!("(?<=(?>{})){}", e, e),
+            expect: |t, s, from| (from..=t.len()).find(|&q| t.is_char_boundary(q) && t[..q].ends_with(s) && t[q..].starts_with(s)).map(|q| vec![Some((q, q + s.len()))]),
+            applies: |_| true,
+        },
+        // line anchors executed by the VM: a line starts at 0 and after \n only (no CRLF mode)
+        Host {
+            name: "(?m:(?!!)^E(?!!))",
+            build: |e| format!("(?m:(?!!)^{}(?!!))", e),
+            expect: |t, s, from| {
+                (from..=t.len())
+                    .find(|&p| t.is_char_boundary(p) && (p == 0 || t[..p].ends_with('\n')) && t[p..].starts_with(s) && !t[p..].starts_with('!') && !t[p + s.len()..].starts_with('!'))
+                    .map(|p| vec![Some((p, p + s.len()))])
+            },
+            applies: |_| true,
+        },
+        Host {
+            name: "(?m:(?=)E$(?=))",
+            build: |e| format!("(?m:(?=){}$(?=))", e),
+            expect: |t, s, from| {
+                let mut p = from;
+                while let Some(q) = occ(t, s, p) {
+                    let after = q + s.len();
+                    if after == t.len() || t[after..].starts_with('\n') {
+                        return Some(vec![Some((q, after))]);
+                    }
+                    p = q + t[q..].chars().next().map_or(1, |c| c.len_utf8());
+                    if p > t.len() {
+                        break;
+                    }
+                }
+                None
+            },
+            applies: |_| true,
+        },
         Host { name: "(?x:E)", build: |e| format!("(?x:{})", e), expect: |t, s, from| occ(t, s, from).map(|p| vec![Some((p, p + s.len()))]), applies: |s| !s.chars().any(|c| c.is_whitespace()) },
         Host { name: "(?i:E)x?", build: |e| format!("(?i:{})x?", e), expect: |t, s, from| occ(t, s, from).map(|p| vec![Some((p, p + s.len() + if t[p + s.len()..].starts_with('x') { 1 } else { 0 }))]), applies: |s| !s.chars().any(|c| c.is_alphabetic()) },
     ]
@@ -206,7 +243,7 @@ fn check_string(s: &str, hs: &[Host], acc: &mut Acc) {
         acc.violate(Violation::new("C17", "borrow", s, "", 0, "escape", format!("{:?}", s), format!("{:?}", e)));
     }
     let mut texts: Vec<String> = vec![s.to_string(), format!("{}{}", s, s), alter(s), format!("{}{}", alter(s), s)];
-    for (u, v) in [("a", ""), ("é", "c"), ("\n", "x"), ("ab", "é"), ("-", "-"), ("-a", "1"), ("b", "7x")] {
+    for (u, v) in [("a", ""), ("é", "c"), ("\n", "x"), ("ab", "é"), ("-", "-"), ("-a", "1"), ("b", "7x"), ("x\r", "\r"), ("\r\n", "\r\n"), ("a\n", "\nb")] {
         texts.push(format!("{}{}{}", u, s, v));
         texts.push(format!("{}{}{}{}", u, s, s, v));
     }
@@ -299,7 +336,7 @@ pub fn run(ctx: &Ctx) -> Outcome {
     let mut out = Outcome::new(acc);
     out.distinct_nontrivial = out.acc.distinct;
     out.exhaustive = true;
-    out.rule = format!("all strings of length <= {} over {} symbols (every ASCII punctuation character incl. all regex meta-characters, a b 1 space newline é € 😀) plus {} seeded random strings of length 3-10; for each s: Cow::Borrowed iff s contains none of \\.+*?()|[]{{}}^$# ; Regex::new(host(escape(s))) compiles for {} hosts (E, (?:E), (E)\\1, (?=E)E, [ab]*E, (?<=E), (?>E)c?, (?:E){{2}}, (?!E)., (?<!-)[ab]E, E\\d?(?=), (?<=E)E, (?<=E)., (?=.?)E(?:(?=c)c|)*(?!!), (?!!)(E)(?:(?=c)c|)*?(?![c])\\1?, (?x:E) for whitespace-free s, (?i:E)x? for letter-free s) and on texts u+s+v, s+s, s with its last character altered the captures equal what plain string search predicts, for a search from the start and from every later character boundary. Non-trivial: distinct strings containing a meta-character.", maxlen, SYMS.len(), n_random, hs_count);
+    out.rule = format!("all strings of length <= {} over {} symbols (every ASCII punctuation character incl. all regex meta-characters, a b 1 space newline é € 😀) plus {} seeded random strings of length 3-10; for each s: Cow::Borrowed iff s contains none of \\.+*?()|[]{{}}^$# ; Regex::new(host(escape(s))) compiles for {} hosts (E, (?:E), (E)\\1, (?=E)E, [ab]*E, (?<=E), (?>E)c?, (?:E){{2}}, (?!E)., (?<!-)[ab]E, E\\d?(?=), (?<=E)E, (?<=E)., (?=.?)E(?:(?=c)c|)*(?!!), (?!!)(E)(?:(?=c)c|)*?(?![c])\\1?, (?<=(?>E))E, (?m:(?!!)^E(?!!)), (?m:(?=)E$(?=)), (?x:E) for whitespace-free s, (?i:E)x? for letter-free s) and on texts u+s+v, s+s, s with its last character altered the captures equal what plain string search predicts, for a search from the start and from every later character boundary. Non-trivial: distinct strings containing a meta-character.", maxlen, SYMS.len(), n_random, hs_count);
     out.assumptions = vec!["'needs escaping' is the set \\.+*?()|[]{}^$# (regex meta-characters plus the comment character #)".into()];
     out
 }
